@@ -18,5 +18,5 @@ INVARIANT FrequenciesProper
 INVARIANT PathsAgree
 INVARIANT ReportIndependent
 INVARIANT PosteriorNonDegenerate
-CONSTRAINT Dump
+INVARIANT Dump
 CHECK_DEADLOCK FALSE
